@@ -845,6 +845,24 @@ fn cal_iter_2() {
     vcover!("cal_iter.two_years", n == 2 && prev.map_or(false, |p| p.year() > c.first_year));
 }
 
+//@H props=C15,C04 tier=quick kind=bounded cap=900 bound="the empty calendar followed by 4 arbitrary bytes in the same stream" domain="all values of the trailing bytes"
+#[cfg_attr(kani, kani::proof)]
+#[cfg_attr(kani, kani::unwind(14))]
+#[cfg_attr(verif_replay, test)]
+fn cal_serde_0() {
+    let a = CompactCalendar::default();
+    let mut buf: Vec<u8> = Vec::with_capacity(32);
+    let wa = a.serialize(&mut buf);
+    vpost!("C15.calendar.serialize.writes_12_plus_48_bytes_per_year", wa.is_ok() && buf.len() == 12);
+    let tail = [nd::u8(), nd::u8(), nd::u8(), nd::u8()];
+    buf.extend_from_slice(&tail);
+    let mut rd: &[u8] = &buf;
+    let ra = CompactCalendar::deserialize(&mut rd);
+    vpost!("C15.calendar.deserialize.consumes_exactly_the_bytes_written", rd.len() == 4 && rd[0] == tail[0] && rd[3] == tail[3]);
+    vpost!("C15.calendar.deserialize.roundtrip_equal", matches!(&ra, Ok(x) if *x == a && x.count() == 0));
+    vcover!("cal_serde_0.reachable", true);
+}
+
 //@H props=C15,C04 tier=deep kind=bounded cap=3000 mem=medium bound="1 stored year; stream = calendar ++ empty calendar" domain="all bit patterns, any first_year"
 #[cfg_attr(kani, kani::proof)]
 #[cfg_attr(kani, kani::unwind(14))]
